@@ -167,7 +167,7 @@ class C14Spec(c01.C01Spec):
         conf['dump'] = False
         conf['useFork'] = False
         cfg['placement'] = 'memory'
-        conf['tcp_keepalive'] = rng.choice([[1, 1, 2], [2, 1, 3], [16, 3, 5]])
+        conf['tcp_keepalive'] = rng.choice([[1, 1, 2], [2, 1, 3], [16, 3, 5], [60, 10, 3]])
         conf['connectionTimeout'] = max(conf['raftMaxTimeout'], rng.choice([1.5, 3.5]))
         conf['connectionRetryTime'] = rng.choice([0, 0.5, 2.0])
         s = cfg['sched']
@@ -229,9 +229,17 @@ class C14Spec(c01.C01Spec):
                 apply([0.0, 'start', h.idx])
         if not rounds(cfg['conf']['connectionRetryTime'] + det + cfg['sched']['connect_timeout'] + 2.0):
             return
-        # phase 1: black-hole one pair for longer than the detection bound
+        # phase 1: black-hole one pair for longer than the detection bound.  A pair with the leader in it exchanges
+        # heartbeats and replies all the time: there the read time-out alone has to notice (the leader at its next
+        # heartbeat after connectionTimeout of silence, the follower at one of its vote requests), however long the
+        # keep-alive budget of the sockets is; an idle pair (two followers) is only covered by TCP keep-alive.
         if n >= 2:
             a, b = 0, n - 1
+            lead = sch.leader_idx()
+            if lead is not None:
+                a, b = lead, (lead + 1) % n
+                det = min(det, 1.15 * (cfg['conf']['connectionTimeout'] + 2 * cfg['conf']['raftMaxTimeout']) + 1.0)
+                w.probe('blackhole_pair_with_leader')
             apply([0.0, 'cut', a, b])
             if not rounds(det + 1.0):
                 return
